@@ -114,7 +114,7 @@ def run(ctx, F):
                   expected="continues only on %s, stores %s" % (sorted(rd), sorted(wr)), found="continues on %s, stores %s" % (sorted(reads), sorted(writes)), where=where(f),
                   key="C16.state-table|" + q)
         lk = live_calls(f, name="lock")
-        eff = [c for c in effect_calls(f) if c.name not in ("lock",)]
+        eff = [c for c in effect_calls(f) if c.name not in ("lock",) and not is_pure_getter(F, c.res or c.q)]
         okl = bool(lk) and all(f.cfg.dominates(lk[0].bb, c.bb) for c in eff)
         ctx.judge(okl, "C16.state-table", "%s holds the state mutex for the whole transition" % last_seg(q), expected="state.lock() dominates every effect", found=str(len(lk)),
                   where=where(f), key="C16.state-table|lock|" + q)
